@@ -154,7 +154,13 @@ def m_waitpid(I, fn, n, args, st):
         s_int.mon["eintr"] = "%s@%s:%d" % (n.get("callee"), fn.name, n["l"][0])
     s_gone.mon.pop("eintr", None)
     s_ok.mon.pop("eintr", None)
-    return [(with_errno(s_int, fs(EINTR)), fs(-1)), (with_errno(failed(s_gone, fn, n), other), fs(-1)), (s_ok, args[0])]
+    outs = [(with_errno(s_int, fs(EINTR)), fs(-1)), (with_errno(failed(s_gone, fn, n), other), fs(-1)), (s_ok, args[0])]
+    if len(args) > 2 and args[2] != fs(0):
+        # WNOHANG (or any other option set): "nothing to report yet" - returns 0, status word untouched, child not reaped
+        s_none = st.copy()
+        s_none.mon.pop("eintr", None)
+        outs.append((s_none, fs(0)))
+    return outs
 
 
 WAITID_SAMPLE = {"exited": 7, "killed": 9, "dumped": 11}      # representative exit code / signals of the decode rule (C01.R5w)
